@@ -755,6 +755,7 @@ static void op_new (char **w, int n)
       "max-connectivity-checks", atoi (kv (w, n, "maxchecks", "100")),
       "idle-timeout", atoi (kv (w, n, "idle", "5000")), NULL);
   if (kv (w, n, "bytestream", NULL)) g_object_set (g->agent, "bytestream-tcp", atoi (kv (w, n, "bytestream", "0")), NULL);
+  if (kv (w, n, "forcerelay", NULL)) g_object_set (g->agent, "force-relay", atoi (kv (w, n, "forcerelay", "0")), NULL);
   if (kv (w, n, "stunsrv", NULL)) {
     struct sockaddr_in sa; char ip[32];
     if (parse_ipport (kv (w, n, "stunsrv", NULL), &sa)) {
